@@ -327,9 +327,17 @@ class DataFrameSchemaBackend(PolarsSchemaBackend):
             if k in column_info.absent_column_names
         }
 
-        # Append missing columns
+        # Append missing columns. A plain python default is a literal value
+        # (a bare string would be taken for a column name by polars)
         check_obj = check_obj.with_columns(
-            **{k: v.default for k, v in missing_cols_schema.items()}
+            **{
+                k: (
+                    v.default
+                    if isinstance(v.default, pl.Expr)
+                    else pl.lit(v.default)
+                )
+                for k, v in missing_cols_schema.items()
+            }
         ).cast({k: v.dtype.type for k, v in missing_cols_schema.items()})
 
         # Set column order: declared columns in schema order, followed by the
